@@ -244,6 +244,10 @@ func runC13(p *eng.Prog, r *eng.Report, tier string) {
 		return strings.HasPrefix(f.Short, "stanza.") || strings.HasPrefix(f.Short, "stream.") || strings.HasPrefix(f.Short, "internal/saslerr.")
 	})
 	r.Note("C13.9: %d start-element edges in token loops examined", nl)
+	c13StreamErrorArms(c, "C13.21")
+	noManualEscaping(c, "C13.22", func(f *eng.Fn) bool {
+		return strings.HasPrefix(f.Short, "stanza.") || strings.HasPrefix(f.Short, "stream.") || strings.HasPrefix(f.Short, "internal/saslerr.")
+	})
 	nv := decoderLoopVisitsEveryChild(c, "C13.20", func(f *eng.Fn) bool {
 		return strings.HasPrefix(f.Short, "stanza.") || strings.HasPrefix(f.Short, "stream.") || strings.HasPrefix(f.Short, "internal/saslerr.")
 	})
@@ -446,4 +450,66 @@ func enumExhaustive(c *cx, id string, rels []string) int {
 		}
 	}
 	return n
+}
+
+// c13StreamErrorArms (C13.21): which child of <stream:error/> ends up where,
+// decided by case analysis over the child's name with the contradicting edges
+// cut (whatever the order or shape of the tests): a <text/> in the stream
+// error namespace is a text and never the condition - also when it comes
+// first; any other element of that namespace is the condition and never a
+// text; an element of another namespace (an application condition) is neither.
+func c13StreamErrorArms(c *cx, id string) {
+	f := c.fn(id, "stream", "(*Error).UnmarshalXML")
+	if f == nil {
+		return
+	}
+	g := f.Graph()
+	type site struct {
+		pt  eng.Point
+		pos token.Pos
+	}
+	var errStores, textStores []site
+	for _, w := range f.Writes() {
+		cls, _ := f.FieldClass(w.LHS)
+		pt, ok := g.Where(w.Stmt)
+		if !ok {
+			continue
+		}
+		switch cls {
+		case "stream.Error.Err":
+			errStores = append(errStores, site{pt, w.Stmt.Pos()})
+		case "stream.Error.Text":
+			textStores = append(textStores, site{pt, w.Stmt.Pos()})
+		}
+	}
+	c.r.Floor(id, "stores to Error.Err in the decoder", len(errStores), 1)
+	c.r.Floor(id, "stores to Error.Text in the decoder", len(textStores), 1)
+	reach := func(ss []site, cut eng.Cut) (bool, token.Pos) {
+		for _, s := range ss {
+			if g.Reachable(g.Entry(), s.pt, cut, nil) {
+				return true, s.pos
+			}
+		}
+		return false, f.Pos()
+	}
+	cases := []struct {
+		name            string
+		assume          []string
+		wantErr, wantTx bool
+	}{
+		{"<text/> in the stream error namespace", []string{`eq(*.Name.Local,"text")`, `eq(*.Name.Space,stream.NSError)`, `!eq(*.Name.Local,"see-other-host")`}, false, true},
+		{"<see-other-host/> in the stream error namespace", []string{`eq(*.Name.Local,"see-other-host")`, `eq(*.Name.Space,stream.NSError)`, `!eq(*.Name.Local,"text")`}, true, false},
+		{"another element of the stream error namespace", []string{`!eq(*.Name.Local,"text")`, `!eq(*.Name.Local,"see-other-host")`, `eq(*.Name.Space,stream.NSError)`}, true, false},
+		{"an element of another namespace", []string{`!eq(*.Name.Space,stream.NSError)`}, false, false},
+	}
+	for _, k := range cases {
+		cut := g.CutFor(k.assume...)
+		gotErr, pe := reach(errStores, cut)
+		gotTx, ptx := reach(textStores, cut)
+		pos := pe
+		if gotTx != k.wantTx {
+			pos = ptx
+		}
+		c.r.Check(id, f, "child "+k.name, "E-fin: for this class of child the condition is stored: "+boolStr(k.wantErr)+", a text is appended: "+boolStr(k.wantTx)+" (edges contradicting the class are cut, then the stores are tested for reachability)", pos, gotErr == k.wantErr && gotTx == k.wantTx, "condition stored: "+boolStr(gotErr)+", text appended: "+boolStr(gotTx))
+	}
 }
